@@ -85,8 +85,8 @@ func TestMain(m *testing.M) {
 	evid.Tests(
 		evid.Spec{Name: "TestReplay", Kind: "plain", QuickShards: 1, ThoroughShards: 1},
 		evid.Spec{Name: "TestKnownFindings", Kind: "plain", QuickShards: 1, ThoroughShards: 1},
-		evid.Spec{Name: "TestPropDemux", Kind: "rapid", Quick: 12000, Thorough: 480000, QuickShards: 8, ThoroughShards: 16},
-		evid.Spec{Name: "TestPropCLI", Kind: "rapid", Quick: 400, Thorough: 9600, QuickShards: 8, ThoroughShards: 16},
+		evid.Spec{Name: "TestPropDemux", Kind: "rapid", Quick: 20000, Thorough: 800000, QuickShards: 8, ThoroughShards: 16},
+		evid.Spec{Name: "TestPropCLI", Kind: "rapid", Quick: 480, Thorough: 12000, QuickShards: 8, ThoroughShards: 16},
 	)
 	evid.Commands("obimultiplex")
 	evid.Note("rule", "A case is a sample sheet (text or CSV format; 1-3 markers with pairwise different IUPAC primers of 8..36 nt; per marker and side one tag length 0..8, absent / asymmetric tags, 1-5 tags per side at pairwise distance >= 1..3, 1-8 declared tag pairs; CSV parameter lines for spacers 0..5, strict/hamming/indel matching, primer mismatches 0..3, primer indels, tag delimiter and tag indels in their global, forward_/reverse_ and per-primer forms; -e / --with-indels) plus 6-14 reads built by construction: flank + tag + spacer + primer with 0..budget(+1) mismatches + barcode + the same on the other strand, in either orientation, with declared / undeclared / random tag pairs, tag substitutions and indels, chimeras of 2-3 amplicons in mixed orientations, truncated or one-primer reads, random reads. Every read is submitted as is and reverse-complemented, in-process (obiformats.ReadNGSFilter + NGSLibrary.ExtractMultiBarcodeSliceWorker, as obimultiplex does) and in batches through the real command `obimultiplex -t sheet [-u file | --keep-errors] [-e N] [--with-indels]` (fasta and fastq). Oracles: (1) constructive - an independent brute-force scan (IUPAC Hamming / Sellers) of the four orientations of every primer; when the sites are exactly well-formed pairs the expected records (barcode forward->reverse, qualities, direction, primers, matches, error counts, tags at spacer distance, sample/experiment/annotations or error flag by own exact / unique-nearest Hamming / Levenshtein lookup) are compared as a multiset; no site at all -> one flagged copy of the read; (2) strand symmetry between the two runs; (3) safety on every record of every read: flagged, or assigned to the sample its reported tags designate, matches within budget at the reported distance, pieces adjacent in the read. Non-trivial = a determined amplicon assigned to a sample with >= 1 primer mismatch, a non-zero spacer next to a tag, or read in reverse orientation. Distinct = hash of (sheet text, options, read).")
